@@ -1,0 +1,389 @@
+//go:build verif
+
+package vgirpc
+
+// verif_c22.go — verification hooks for property C22 (every RPC and control
+// route is behind the authenticator). Add-only; compiled only with -tags verif.
+//
+// Exports
+//   (a) the patterns really registered on an HttpServer's ServeMux (read out of
+//       net/http's routing tree by a generic reflect walk: every *pattern value
+//       reachable from the mux, so a route added anywhere shows up),
+//   (b) what the real mux reports for one request (pattern / redirect / none),
+//   (c) one configuration routine shared by the constants dumper and the harness,
+//   (d) constants: for 256 points of the feature lattice the set of registered
+//       patterns, and — obtained by sending one request per registered pattern
+//       through ServeHTTP under an authenticator that always rejects — the set
+//       of patterns that answered 401 and the set that consulted the
+//       authenticator, as bit masks over the universe of pattern strings.
+
+import (
+	"fmt"
+	"io"
+	"log/slog"
+	"net/http"
+	"net/http/httptest"
+	"reflect"
+	"sort"
+	"strings"
+	"time"
+
+	"github.com/apache/arrow-go/v18/arrow"
+)
+
+// VerifC22Toggles is one point of the C22 feature lattice. Bit i of a lattice
+// mask is field i in declaration order.
+type VerifC22Toggles struct {
+	Prefix     bool // SetPrefix(VerifC22Prefix)
+	Landing    bool // SetEnableLandingPage
+	Describe   bool // SetEnableDescribePage
+	NotFound   bool // SetEnableNotFoundPage
+	Sticky     bool // EnableSticky
+	Pkce       bool // SetOAuthPkce (effective only with OAuth and an authenticator)
+	Custom     bool // two operator routes registered through Handle
+	Upload     bool // SetUploadURLProvider
+	Introspect bool // EnableTokenIntrospection
+	OAuth      bool // SetOAuthResourceMetadata
+	Cors       bool // SetCorsOrigins
+}
+
+// VerifC22NumToggles is the lattice dimension.
+const VerifC22NumToggles = 11
+
+// VerifC22Prefix is the route prefix used when Prefix is on.
+const VerifC22Prefix = "/vgi"
+
+// VerifC22CustomGet / VerifC22CustomPost are the operator-registered routes.
+const (
+	VerifC22CustomGet  = "GET /c22_custom"
+	VerifC22CustomPost = "POST /c22_custom/run"
+)
+
+// VerifC22IntrospectorPrincipal is the one principal allowed to introspect.
+const VerifC22IntrospectorPrincipal = "introspector"
+
+// VerifC22FromMask decodes a lattice mask.
+func VerifC22FromMask(m uint32) VerifC22Toggles {
+	b := func(i uint) bool { return m&(1<<i) != 0 }
+	return VerifC22Toggles{b(0), b(1), b(2), b(3), b(4), b(5), b(6), b(7), b(8), b(9), b(10)}
+}
+
+// VerifC22Apply configures h for one lattice point through the public setters,
+// in an order that keeps every registration (SetPrefix and SetUploadURLProvider
+// rebuild the mux, so they come first). auth may be nil (no authenticator);
+// resolver / provider / custom may be nil when the corresponding toggle is off.
+// It reports whether PKCE login actually got enabled.
+func VerifC22Apply(h *HttpServer, t VerifC22Toggles, auth AuthenticateFunc, resolver TokenResolver,
+	provider UploadURLProvider, custom http.HandlerFunc) (pkceOn bool, err error) {
+	if t.Prefix {
+		h.SetPrefix(VerifC22Prefix)
+	}
+	if t.Upload {
+		h.SetUploadURLProvider(provider)
+	}
+	h.SetEnableLandingPage(t.Landing)
+	h.SetEnableDescribePage(t.Describe)
+	h.SetEnableNotFoundPage(t.NotFound)
+	if t.Sticky {
+		h.EnableSticky(time.Minute)
+	}
+	if t.Custom {
+		h.Handle(VerifC22CustomGet, custom)
+		h.Handle(VerifC22CustomPost, custom)
+	}
+	if t.Introspect {
+		if err := h.EnableTokenIntrospection(TokenIntrospectionConfig{Resolver: resolver,
+			Principals: []string{VerifC22IntrospectorPrincipal}, RateLimitPerSecond: 1000000}); err != nil {
+			return false, err
+		}
+	}
+	if t.OAuth {
+		if err := h.SetOAuthResourceMetadata(&OAuthResourceMetadata{Resource: "https://rpc.example.com" + h.prefix,
+			AuthorizationServers: []string{"https://idp.invalid"}, ClientID: "cid"}); err != nil {
+			return false, err
+		}
+	}
+	if auth != nil {
+		h.SetAuthenticate(auth)
+	}
+	if t.Pkce {
+		if perr := h.SetOAuthPkce(OAuthPkceConfig{}); perr == nil {
+			pkceOn = true
+			// never touch the network: a fixed discovery answer
+			h.pkce.oidcDiscovery = func() (string, string, bool) {
+				return "https://idp.invalid/authorize", "https://idp.invalid/token", true
+			}
+		}
+	}
+	if t.Cors {
+		h.SetCorsOrigins("https://app.example.com")
+	}
+	return pkceOn, nil
+}
+
+// VerifC22StopReaper stops the sticky reaper goroutine of a finished server.
+func VerifC22StopReaper(h *HttpServer) {
+	if h.stickyRegistry != nil {
+		h.stickyRegistry.stopReaper()
+	}
+}
+
+// VerifC22OpenSession mints a live sticky session bound to a, the way
+// CallContext.OpenSession does for a request carrying VGI-Session-Accept, and
+// returns its token.
+func VerifC22OpenSession(h *HttpServer, a *AuthContext, state any) (string, error) {
+	if h.stickyRegistry == nil {
+		return "", fmt.Errorf("sticky sessions not enabled")
+	}
+	sink := &stickySink{registry: h.stickyRegistry, tokenKey: h.tokenKey, serverID: h.server.serverID, auth: a,
+		acceptOpens: true, transport: TransportKindHTTP}
+	if err := (&CallContext{stickySink: sink}).OpenSession(state, 0); err != nil {
+		return "", err
+	}
+	return sink.mintedToken, nil
+}
+
+// verifC22Walk collects the string form of every *http.pattern reachable from v.
+func verifC22Walk(v reflect.Value, seen map[uintptr]bool, out map[string]bool, depth int) {
+	if depth > 64 || !v.IsValid() {
+		return
+	}
+	switch v.Kind() {
+	case reflect.Ptr:
+		if v.IsNil() {
+			return
+		}
+		p := v.Pointer()
+		if seen[p] {
+			return
+		}
+		seen[p] = true
+		if v.Type().Elem().Kind() == reflect.Struct && v.Type().Elem().Name() == "pattern" {
+			if f := v.Elem().FieldByName("str"); f.IsValid() && f.Kind() == reflect.String {
+				out[f.String()] = true
+			}
+			return
+		}
+		verifC22Walk(v.Elem(), seen, out, depth+1)
+	case reflect.Interface:
+		if !v.IsNil() {
+			// handlers hang off the tree as interfaces: do not descend into user code
+			return
+		}
+	case reflect.Struct:
+		for i := 0; i < v.NumField(); i++ {
+			verifC22Walk(v.Field(i), seen, out, depth+1)
+		}
+	case reflect.Slice, reflect.Array:
+		for i := 0; i < v.Len(); i++ {
+			verifC22Walk(v.Index(i), seen, out, depth+1)
+		}
+	case reflect.Map:
+		it := v.MapRange()
+		for it.Next() {
+			verifC22Walk(it.Value(), seen, out, depth+1)
+		}
+	}
+}
+
+// VerifC22Patterns lists (sorted) every pattern registered on h's mux. ok is
+// false when net/http's internals could not be read (the tie then fails closed).
+func VerifC22Patterns(h *HttpServer) (pats []string, ok bool) {
+	defer func() {
+		if recover() != nil {
+			pats, ok = nil, false
+		}
+	}()
+	h.InitPages() // page / login routes are registered lazily
+	out := map[string]bool{}
+	mv := reflect.ValueOf(h.mux).Elem()
+	for _, name := range []string{"tree", "index"} {
+		if f := mv.FieldByName(name); f.IsValid() {
+			verifC22Walk(f, map[uintptr]bool{}, out, 0)
+		}
+	}
+	for p := range out {
+		pats = append(pats, p)
+	}
+	sort.Strings(pats)
+	return pats, len(pats) > 0
+}
+
+// VerifC22Match reports what the real mux decides for r: kind "route" with the
+// matched pattern, "redirect" (path canonicalisation), or "none" (the mux's own
+// 404 / 405).
+func VerifC22Match(h *HttpServer, r *http.Request) (pattern, kind string) {
+	h.InitPages()
+	hd, pat := h.mux.Handler(r)
+	if strings.Contains(fmt.Sprintf("%T", hd), "redirectHandler") {
+		return "", "redirect"
+	}
+	if pat == "" {
+		return "", "none"
+	}
+	return pat, "route"
+}
+
+// verifC22Request builds a request that the given pattern matches: wildcards
+// are replaced by a plain segment, {$} by nothing, a missing method by GET.
+func verifC22Request(pat string) *http.Request {
+	method, path := "GET", pat
+	if i := strings.IndexByte(pat, ' '); i >= 0 {
+		method, path = pat[:i], strings.TrimSpace(pat[i+1:])
+	}
+	var segs []string
+	for _, s := range strings.Split(path, "/") {
+		switch {
+		case s == "{$}":
+			s = ""
+		case strings.HasPrefix(s, "{") && strings.HasSuffix(s, "}"):
+			s = "probe"
+		}
+		segs = append(segs, s)
+	}
+	path = strings.Join(segs, "/")
+	if strings.HasSuffix(path, "/") && !strings.HasSuffix(pat, "{$}") {
+		path += "c22-probe-leaf" // a subtree pattern: ask for something only it matches
+	}
+	if path == "" {
+		path = "/"
+	}
+	r := httptest.NewRequest(method, path, strings.NewReader("{}"))
+	r.Header.Set("Content-Type", arrowContentType)
+	return r
+}
+
+type verifC22Uploader struct{}
+
+func (verifC22Uploader) GenerateUploadURL(*arrow.Schema) (UploadURL, error) {
+	return UploadURL{UploadURL: "https://storage.invalid/put", DownloadURL: "https://storage.invalid/get",
+		ExpiresAt: time.Unix(2000000000, 0).UTC()}, nil
+}
+
+// verifC22Point builds a real server at one lattice point with an authenticator
+// that rejects every request, and returns its registered patterns, the
+// patterns whose probe was answered 401, and those whose probe consulted the
+// authenticator.
+func verifC22Point(t VerifC22Toggles) (reg, rej, consulted map[string]bool, ok bool) {
+	reg, rej, consulted = map[string]bool{}, map[string]bool{}, map[string]bool{}
+	defer func() {
+		if recover() != nil {
+			ok = false
+		}
+	}()
+	h := NewHttpServer(NewServer())
+	calls := 0
+	auth := func(*http.Request) (*AuthContext, error) {
+		calls++
+		return nil, &AuthFailure{Reason: AuthReasonInvalidCredential}
+	}
+	resolver := func(string) (TokenIdentity, bool, error) { return TokenIdentity{Principal: "p"}, true, nil }
+	custom := func(w http.ResponseWriter, _ *http.Request) { w.WriteHeader(http.StatusOK) }
+	if _, err := VerifC22Apply(h, t, auth, resolver, verifC22Uploader{}, custom); err != nil {
+		return reg, rej, consulted, false
+	}
+	defer VerifC22StopReaper(h)
+	pats, pok := VerifC22Patterns(h)
+	if !pok {
+		return reg, rej, consulted, false
+	}
+	for _, p := range pats {
+		reg[p] = true
+		if strings.HasPrefix(p, "OPTIONS ") {
+			continue // answered by the preflight branch before the mux
+		}
+		calls = 0
+		rec := httptest.NewRecorder()
+		h.ServeHTTP(rec, verifC22Request(p))
+		if rec.Code == http.StatusUnauthorized {
+			rej[p] = true
+		}
+		if calls > 0 {
+			consulted[p] = true
+		}
+	}
+	return reg, rej, consulted, true
+}
+
+func init() {
+	verifConstProviders = append(verifConstProviders, func() []VerifConst {
+		old := slog.Default()
+		slog.SetDefault(slog.New(slog.NewTextHandler(io.Discard, nil)))
+		defer slog.SetDefault(old)
+
+		// lattice points tabulated at build time: all 2^7 settings of the toggles
+		// that change the set of registered routes, each with the remaining four
+		// toggles all off and all on
+		const regBits = 7
+		rest := uint32(1)<<VerifC22NumToggles - 1 - (uint32(1)<<regBits - 1)
+		var points []uint32
+		for m := uint32(0); m < 1<<regBits; m++ {
+			points = append(points, m, m|rest)
+		}
+		regs := make([]map[string]bool, len(points))
+		rejs := make([]map[string]bool, len(points))
+		cons := make([]map[string]bool, len(points))
+		all := map[string]bool{}
+		okAll := int64(1)
+		for i, m := range points {
+			var ok bool
+			regs[i], rejs[i], cons[i], ok = verifC22Point(VerifC22FromMask(m))
+			if !ok {
+				okAll = 0
+			}
+			for k := range regs[i] {
+				all[k] = true
+			}
+		}
+		universe := make([]string, 0, len(all))
+		for k := range all {
+			universe = append(universe, k)
+		}
+		sort.Strings(universe)
+		if len(universe) > 64 {
+			okAll = 0
+			universe = universe[:64]
+		}
+		idx := map[string]uint{}
+		for i, k := range universe {
+			idx[k] = uint(i)
+		}
+		mask := func(s map[string]bool) uint64 {
+			var v uint64
+			for k := range s {
+				if i, ok := idx[k]; ok {
+					v |= 1 << i
+				}
+			}
+			return v
+		}
+		be := func(v uint64, n int) string {
+			b := make([]byte, n)
+			for i := n - 1; i >= 0; i-- {
+				b[i] = byte(v)
+				v >>= 8
+			}
+			return string(b)
+		}
+		// row = lattice mask (2 bytes BE) ++ registered (8) ++ rejected-401 (8) ++ consulted (8)
+		rows := make([]string, len(points))
+		for i, m := range points {
+			rows[i] = be(uint64(m), 2) + be(mask(regs[i]), 8) + be(mask(rejs[i]), 8) + be(mask(cons[i]), 8)
+		}
+		// status of the path-canonicalisation redirect of this toolchain's ServeMux
+		rec := httptest.NewRecorder()
+		NewHttpServer(NewServer()).ServeHTTP(rec, httptest.NewRequest("POST", "/a//b", nil))
+		return []VerifConst{
+			verifNum("c22_tie_ok", okAll),
+			verifNum("c22_num_toggles", VerifC22NumToggles),
+			verifNum("c22_redirect_status", int64(rec.Code)),
+			verifBytes("c22_prefix_seg", strings.TrimPrefix(VerifC22Prefix, "/")),
+			verifBytes("c22_upload_seg", UploadURLMethod),
+			verifBytes("c22_introspect_seg", strings.TrimPrefix(IntrospectEndpoint, "/")),
+			verifBytes("c22_describe_method", "__describe__"),
+			verifList("c22_wellknown_segs", strings.Split(strings.TrimPrefix(wellKnownURL(""), "/"), "/")),
+			verifList("c22_universe", universe),
+			verifList("c22_table", rows),
+		}
+	})
+}
